@@ -237,6 +237,33 @@ def race_key(r, exceptions):
     return "race:%s:%s" % (os.path.basename(fr[0][1]) if fr else "?", "/".join(r.get("funcs", [])))
 
 
+def crash_of(stderr, sites, repo_root):
+    """panic / fatal error of a scenario process -> canonical key crash:<top library frame> + plan + stack."""
+    at = max(stderr.find("panic:"), stderr.find("fatal error:"), 0)
+    tail = stderr[at:]
+    msg = tail.split("\n", 1)[0]
+    lines = tail.splitlines()
+    top = None
+    for i in range(len(lines) - 1):
+        fn = lines[i].strip()
+        if fn.startswith(MOD) and "/verif_harness" not in fn:
+            m = re.match(r"^\s*(\S+?):(\d+)(?: \+0x[0-9a-f]+)?$", lines[i + 1])
+            if m:
+                file = m.group(1)
+                rel = file[len(repo_root) + 1:] if file.startswith(repo_root + "/") else file
+                top = context_of(sites, rel, int(m.group(2)), re.sub(r"\([^()]*\)$", "", fn))
+                break
+    plan = re.search(r"^PLAN (.*)$", stderr, re.M)
+    target = None
+    if plan:
+        try:
+            target = json.loads(plan.group(1)).get("target")
+        except Exception:
+            pass
+    return {"key": "crash:" + (top or "outside-the-library"), "msg": msg, "plan": plan.group(1) if plan else None,
+            "stack": tail[:3000], "target": target}
+
+
 def run_scenario(seed, idx, target, verbose=False):
     env = dict(os.environ)
     env["GORACE"] = "halt_on_error=0 atexit_sleep_ms=0 exitcode=0"
@@ -266,7 +293,7 @@ def dynamic_leg(run, budget_s, targets, exceptions):
     stats = {"scenarios": 0, "hung": 0, "crashed": 0, "no_summary": 0, "run_not_returned": 0, "race_reports": 0,
              "reports_outside_module": 0, "ops": 0, "by_target": {}, "ops_by_kind": {}, "programs": set(),
              "nontrivial_programs": set(), "workers": workers}
-    found, samples = {}, []
+    found, samples, crashes = {}, [], {}
     nxt = 0
     with cf.ThreadPoolExecutor(max_workers=workers) as ex:
         pending = set()
@@ -304,17 +331,11 @@ def dynamic_leg(run, budget_s, targets, exceptions):
                     stats["no_summary"] += 1
                     if "panic:" in r.get("stderr", "") or "fatal error:" in r.get("stderr", ""):
                         stats["crashed"] += 1
-                        e = r["stderr"]
-                        at = max(e.find("panic:"), e.find("fatal error:"), 0)
-                        msg = e[at:].split("\n", 1)[0]
-                        m = re.search(r"^(" + re.escape(MOD) + r"[^\n(]*(?:\([^)]*\)[^\n(]*)*)\(", e[at:], re.M)
-                        sig = "%s @ %s" % (re.sub(r"\[\d+\]|\d+", "N", msg), short_func(m.group(1)) if m else "?")
-                        plan = re.search(r"^PLAN (.*)$", e, re.M)
-                        again = bool(plan and "RunAgain" in plan.group(1))
-                        c = stats.setdefault("crashes", {}).setdefault(sig, {"count": 0, "with_RunAgain_in_plan": 0,
-                                                                               "idx": r["idx"], "stderr": e[at:at + 1500]})
+                        cr = crash_of(r["stderr"], sites, repo_root)
+                        c = stats.setdefault("crashes", {}).setdefault(cr["key"], {"count": 0, "with_RunAgain_in_plan": 0})
                         c["count"] += 1
-                        c["with_RunAgain_in_plan"] += 1 if again else 0
+                        c["with_RunAgain_in_plan"] += 1 if "RunAgain" in (cr["plan"] or "") else 0
+                        crashes.setdefault(cr["key"], dict(cr, idx=r["idx"], target=cr.get("target")))
                 for rc in races_of(r.get("stderr", ""), sites, repo_root):
                     stats["race_reports"] += 1
                     if rc.get("outside"):
@@ -324,7 +345,7 @@ def dynamic_leg(run, budget_s, targets, exceptions):
                     key = race_key(rc, exceptions)
                     if key not in found:
                         found[key] = dict(rc, idx=r["idx"], target=(s or {}).get("target"))
-    return stats, found, samples
+    return stats, found, samples, crashes
 
 
 # --------------------------------------------------------------------------- entry points
@@ -401,7 +422,16 @@ def run(run):
     budget = 40 if run.tier == "quick" else 600
     if fails:
         budget = int(budget * 1.5)
-    stats, found, samples = dynamic_leg(run, budget, targets, exceptions)
+    stats, found, samples, crashes = dynamic_leg(run, budget, targets, exceptions)
+
+    # a panic / fatal error of the process under concurrent public-API use is a violation too
+    for key, cr in sorted(crashes.items()):
+        run.violation(key, {"seed": run.seed, "idx": cr["idx"], "target": cr.get("target") or "all", "crash": True,
+                            "message": cr["msg"], "plan": cr["plan"], "stack": cr["stack"],
+                            "how": "build/bin/c17race_race -seed %d -idx %d -target %s -v  (schedule dependent: "
+                                   "./check C17 --replay repeats it)" % (run.seed, cr["idx"], cr.get("target") or "all")},
+                      "the process crashed under concurrent public-API calls: %s (top library frame %s)" % (
+                          cr["msg"], key[6:]), False)
 
     raced_fields = set()
     for key, rc in sorted(found.items()):
@@ -464,8 +494,8 @@ def run(run):
         "exhaustive": False,
     })
     if stats["hung"] or stats["crashed"]:
-        run.notes.append("%d scenario(s) hit the 30 s limit and %d crashed (deadlocks/panics are other properties' "
-                         "subject; recorded under dynamic.crashes with plan and stack, not a C17 verdict): %s" % (
+        run.notes.append("%d scenario(s) hit the 30 s limit (recorded, not a verdict) and %d crashed (each crash key is a "
+                         "violation): %s" % (
                              stats["hung"], stats["crashed"],
                              "; ".join("%s x%d (%d with a second Run())" % (k, v["count"], v["with_RunAgain_in_plan"])
                                        for k, v in stats.get("crashes", {}).items())))
@@ -482,6 +512,24 @@ def replay(path):
     if not ok:
         print(msg)
         return 1
+    if pl.get("crash"):
+        okb, log = C.go_build(["c17race"], race=True)
+        if not okb:
+            print(log)
+            return 1
+        sites = load_sites()
+        root = os.path.realpath(C.REPO)
+        for attempt in range(40):
+            r = run_scenario(rp.get("seed", 1), pl["idx"], pl.get("target", "all"))
+            e = r.get("stderr", "")
+            if r.get("summary") is None and ("panic:" in e or "fatal error:" in e):
+                cr = crash_of(e, sites, root)
+                if cr["key"] == rp["key"]:
+                    print(cr["stack"])
+                    print("VIOLATION property=C17 replay=%s" % path)
+                    return 1
+        print("crash %s not reproduced in 40 attempts of scenario idx=%s" % (rp["key"], pl["idx"]))
+        return 0
     if "idx" in pl and "race_detector_report" in pl:
         okb, log = C.go_build(["c17race"], race=True)
         if not okb:
